@@ -22,6 +22,7 @@ fn main() {
         "C03" => props::c03::run(tier),
         "C04" => props::c04::run(tier),
         "C05" => props::c05::run(tier),
+        "C06" => props::c06::run(tier),
         "C07" => props::c07::run(tier),
         "C09" => props::c09::run(tier),
         "C10" => props::c10::run(tier),
